@@ -852,6 +852,9 @@ class Pile(Widget, WidgetContainerMixin, WidgetContainerListContentsMixin):
             # flow/fixed widgets rendered too large/small
             out = CompositeCanvas(out)
             out.pad_trim_top_bottom(0, size[1] - out.rows())
+        if len(combinelist) < len(self.contents):
+            # an item without rows may get some later: depend on the items that were not rendered as well
+            out.set_depends([w for w, _ in self.contents])
         return out
 
     def get_cursor_coords(self, size: tuple[()] | tuple[int] | tuple[int, int]) -> tuple[int, int] | None:
